@@ -3,7 +3,7 @@
 cd "$(dirname "$0")/.."
 n=$1; chk=$2; tier=${3:-quick}
 id=${n%-m*}; k=${n#*-m}
-root=/tmp/seed; [ "$k" -ge 3 ] && root=/tmp/seed2
+root=/tmp/seed2  # round-1 worktrees are gone; m1/m2 patches apply in a fresh worktree: git -C /repo worktree add --detach /tmp/seed2/<ID> <base_commit>
 wt=$root/$id
 git -C $wt apply /verif/seeded/$n/patch.diff || exit 2
 VERIF_REPO_DIR=$wt ./check $chk $tier | grep -E "signature|detail|$tier seed" | head -${MT_LINES:-6} | cut -c1-${MT_COLS:-300}
